@@ -2,12 +2,18 @@ import vflib
 WRAPS = ("psGetEntropy", "gettimeofday", "time", "clock_gettime")
 def run(ctx):
     st = [dict(variant="asan", name="c06", sources=["checks/c06_sequence.c", "harness/mx_wraps.c"], wraps=WRAPS, libs=["-lcrypto"], shards=vflib.NCPU, timeout=7200 if ctx.thorough else 1500)]
-    rule = ("Each case = one single-step deviation (delete / duplicate / swap adjacent / inject one of 16 handshake message types once or twice, taken from the honest run or - for resumed modes - from the priming full handshake / premature "
-            "ChangeCipherSpec, at every position) of one flight addressed to the receiver, per mode (version x key exchange x resumed/ticket/client-auth) and role, executed on a fork()ed "
-            "clone: the flight is re-framed to one handshake message per record (TLS 1.3 protected flights opened and re-sealed with the sender's handshake key) and fed message by "
-            "message; a reference grammar per mode decides where the sequence becomes illegal. The deviant peer is transcript-consistent: every Finished fed to the receiver is recomputed over the "
-            "receiver's own transcript and sealed with the sender's keys, and (TLS <= 1.2) the sender's running handshake hash is re-based on the receiver's view, so completion is decided by the "
-            "receiver's state machine alone; completion after a grammar-illegal sequence is the violation. distinct_nontrivial = distinct (mode, role, flight, deviation, position, type) executed.")
+    rule = ("Each case = one deviation (delete / duplicate / swap adjacent / skip a block of 2..n-1 adjacent messages / inject one of 16 handshake message types once or twice, taken from the honest run or - for resumed modes - "
+            "from the priming full handshake, a well-formed NewSessionTicket being built where the honest run has none / HelloRetryRequest where the honest run has one / premature ChangeCipherSpec, at every position) of one flight "
+            "addressed to the receiver, per mode and role, executed on a fork()ed clone. Modes = version x key exchange x resumed/ticket/client-auth, plus modes in which the client OFFERS what the server declines (TLS <= 1.2 "
+            "session_ticket extension to a server without ticket keys, full and session-id-resumed; TLS 1.3 external PSK unknown to the server and stale ticket under rotated ticket keys, both with client authentication "
+            "required), TLS 1.3 HelloRetryRequest handshakes and accepted 0-RTT data (EndOfEarlyData). The flight is re-framed to one handshake message per record or every message split over two records (TLS 1.3 protected "
+            "flights opened and re-sealed with the sender's early / handshake traffic key) and fed message by message; a reference grammar per mode decides where the sequence becomes illegal - what was negotiated (session_ticket "
+            "echoed, pre_shared_key selected, early_data accepted, HelloRetryRequest) is read from the server's messages on the wire of the attacked connection, not from the configuration. The deviant peer is transcript-consistent: "
+            "every Finished fed to the receiver is recomputed over the receiver's own transcript and sealed with the sender's keys, and (TLS <= 1.2) the sender's running handshake hash is re-based on the receiver's view, so "
+            "completion is decided by the receiver's state machine alone; completion after a grammar-illegal sequence is the violation. Quick tier: declined-offer modes are attacked in the role the unanswered offer concerns "
+            "(ticket: client, PSK: server), fragmented framing for all cases of the basic TLS 1.3 modes and a third of the others; thorough: every mode in both roles, every case in both framings, every type injected twice. "
+            "distinct_nontrivial = distinct (mode, role, flight, deviation, position, type/length, framing) executed.")
     return vflib.std_run(ctx, st, "exploration", rule,
         ["the reference grammar is a reading of RFC 5246/6347/8446/5077 restricted to the messages this build can emit", "DTLS: only the completion clause is judged (duplicates and out-of-order messages may be ignored)",
-         "the deviant peer knows the session secrets (it is the authenticated peer or an unauthenticated one, never a man in the middle); DTLS and TLS 1.3 senders are not re-based (TLS 1.3 receivers complete without the sender's cooperation)"], min_nontrivial=500)
+         "the deviant peer knows the session secrets (it is the authenticated peer or an unauthenticated one, never a man in the middle); DTLS and TLS 1.3 senders are not re-based (TLS 1.3 receivers complete without the sender's cooperation)",
+         "a TLS 1.3 mode whose honest handshake fails is attacked all the same (its negotiated parameters come from the wire); without a violation the run is then inconclusive, not held"], min_nontrivial=500)
